@@ -18,7 +18,8 @@ META = {
              "report more than the input holds and always to terminate, for every byte string and depth limit; and the limit is proved "
              "exact and shape-independent: for EVERY encodable value both document loops read its encoding to the end iff fewer than "
              "1024 collections surround its innermost value, and deeper values are refused with the depth-limit error "
-             "(C18_msgpack_limit_exact, C18_verdict_depends_on_depth_only); the model "
+             "(C18_msgpack_limit_exact, C18_verdict_depends_on_depth_only), and likewise on the serde_json reader/writer models the JSON "
+             "text of any value is read back iff its depth is below 128 (C18_json_limit_exact); the model "
              "(size calculator, rmp-serde depth counter, both document loops) is diffed against the implementation on all "
              "short byte strings, all markers and nesting windows around 1024 in every shape. For JSON/YAML/TOML the limits "
              "belong to third-party crates and are observed: same verdict slice vs reader at every depth in a window, one "
@@ -267,6 +268,9 @@ def run(outcome, tier, seed):
                     "combinations in a window around each limit, each run as slice and reader (non-trivial = all of them)")
     if outcome.hooks_available:
         shared.msgpack_correspondence(outcome, tier, seed)
+    # the JSON reader and writer models of the JSON limit theorems (nesting corpus included)
+    import jsoncorr
+    jsoncorr.correspondence(outcome, tier, seed)
     nesting_oracle(outcome, tier, seed)
     uniformity_oracle(outcome, tier, seed)
     binary_oracle(outcome, tier)
